@@ -209,6 +209,7 @@ impl Monitor for C10 {
         let mut rng = Rng::for_trial(cfg.seed, "C10", idx);
         let vi = (idx % 8) as usize;
         let n = nl[((idx / 8) % nl.len() as u64) as usize];
+        let n = super::jitter_n(cfg, n, 1, 64, &mut rng);
         let rep = idx / (8 * nl.len() as u64);
         let k = kind(vi, n, &mut rng);
         let exact = rep % 2 == 0;
